@@ -21,11 +21,18 @@ RULE = ("histories of 5-25 operations (compile into / clone / drop / search) ove
 
 def gen(ctx):
     rng = ctx.rng
-    n = 800 if ctx.tier == "quick" else 100000
+    n = 1500 if ctx.tier == "quick" else 100000
     eg = G.ExprGen(rng, funcs=True, maxdepth=2)
     cases = []
     for _ in range(n):
         docs = [G.rand_doc(rng, 3) for _ in range(rng.randrange(2, 5))]
+        if rng.random() < 0.5:
+            # documents that are equal as far as == can tell but not identical (1 vs 1.0, neighbouring doubles, 2^53 vs 2^53+1): anything
+            # remembered between calls and looked up by == confuses them
+            a = G.rand_doc(rng, 2)
+            docs += [a, G.respell_numbers(rng, a)]
+            x, y = G.near_pair(rng, 2)
+            docs += [x, y]
         pool = [G.spell(rng, eg.expr()) for _ in range(4)] + ["a.", "sort_by(@, &a)", "[*].abs(@)", "length(@)", "@", "foo[?bar > `1`].baz | [0]"]
         # builtins on the current node, on a member, on an expression reference and on a literal: a function that remembers anything between
         # calls (interned results, memo tables keyed too coarsely) shows up as a result that depends on what ran before
@@ -33,11 +40,27 @@ def gen(ctx):
         pool += [t.replace("F", fn) for t in rng.sample(["F(@)", "F(a)", "F(&a)", "F(`null`)", "F(@, &a)", "F(&a, @)", "[F(@), F(&a), F(`null`)]",
                                                           "F('x')", "F(`[]`)", "F(`{}`)", "F(@, @)", "[*].F(@)"], 4)]
         pool += ["type(@)", "type(&a)"] if rng.random() < 0.3 else []
+        # the same inner text inside different delimiters (raw string, JSON literal, quoted identifier): anything keyed on the inner text only mixes them up
+        inner = rng.choice(['{"kind":"' + "a" * 30 + '"}', '"' + "b" * 40 + '"', "[1,2,3,4,5,6,7,8,9,10,11,12,13,14,15,16]", '"short"', "12345678901234567890123456789012345"])
+        pool += ["'" + inner + "'", "`" + inner + "`", "@ == `" + inner + "`", "@ == '" + inner + "'"]
         # respellings of the same expressions that differ only in insignificant whitespace (a memo keyed on a normalised text would
         # hand back the tree — and the offsets — of another spelling, depending on what was compiled before)
         pool += [rng.choice([" ", "  ", "\t", "\n"]) + p for p in rng.sample(pool, 3)] + [p + rng.choice([" ", "\n "]) for p in rng.sample(pool, 2)]
         ops = []
-        for _ in range(rng.randrange(5, 26)):
+        if rng.random() < 0.4:
+            a = rng.choice(["[ %s ]", "[ %s %s ]", "{ s61 %s }", "[ [ %s ] s61 ]", "{ s61 [ %s %s ] s62 n }", "%s"]).replace("%s", "\0")
+            while "\0" in a:
+                a = a.replace("\0", rng.choice(G.NUM_POOL + ["u3", "u10", G.f64_bits(3.0), G.f64_bits(0.71)]), 1)
+            b = G.respell_numbers(rng, a)
+            docs += [a, b, b, a]
+            # memo probe: one function searched back to back over documents that are ==-equal but not identical
+            fn = rng.choice(G.BUILTINS)
+            t = rng.choice(["F(@)", "F(@)", "[*].F(@)", "F(@, @)", "F(&@, @)", "F(@, &@)", "F(`\",\"`, @)", "*.F(@)", "F(F(@))"]).replace("F", fn)
+            ops.append("c0:%s" % C.hexs(t))
+            nd = len(docs)
+            for _ in range(rng.randrange(3, 9)):
+                ops.append("s0:%d" % rng.choice([nd - 4, nd - 3, nd - 4, nd - 3, nd - 2, nd - 1]))
+        for _ in range(rng.randrange(5, 26) if not ops else rng.randrange(0, 6)):
             r = rng.random()
             k = rng.randrange(0, 4)
             if r < 0.3:
